@@ -531,6 +531,8 @@ func (f *quorumFam) Gen(r *hx.Run) {
 				continue
 			}
 			f.headers(r, g, c.n)
+			f.rejectedAnnouncement(r, g, c.n)
+			f.headerSyncAhead(r, g, c.n)
 			f.handover(r, g, c.n)
 		}
 	}
@@ -804,4 +806,149 @@ func init() { families["crashlong"] = func() hx.Family { return &crashLongFam{} 
 func (f *crashLongFam) Gen(r *hx.Run) {
 	r.Rule("one chain of 2009 blocks: 1996 honest empty blocks, then crashes at every point on both sides of the header-index batch boundary (height 2001 writes the first batch of 2000 hashes), restarts, lookups of old and new blocks; compared with an uncrashed twin and with the model")
 	f.longChain(r)
+}
+
+
+// outsiders returns up to k pool keys that are not in the set in force.
+func (g *chainGen) outsiders(k int) []int {
+	in := map[int]bool{}
+	for _, x := range g.set {
+		in[x] = true
+	}
+	var out []int
+	for i := 0; i < poolSize && len(out) < k; i++ {
+		if !in[i] {
+			out = append(out, i)
+		}
+	}
+	return out
+}
+
+func verdictOf(res string) string { return strings.SplitN(res, " ", 2)[0] }
+
+// rejectedAnnouncement: a header / block that announces a new validator set but fails the signature check must
+// leave the sets alone; afterwards headers signed only by the announced outsiders are tried, then one by the set in force.
+func (f *quorumFam) rejectedAnnouncement(r *hx.Run, g *chainGen, n int) {
+	out := g.outsiders(2)
+	if len(out) == 0 {
+		return
+	}
+	m := refThreshold(len(g.set), g.net, 0)
+	if m < 1 {
+		m = 1
+	}
+	listed := shuffled(r, g.set)
+	if len(listed) > m {
+		listed = listed[:m]
+	}
+	for vi, variant := range []string{"wrong-message", "garbage", "too-few", "unlisted-outsider-sig"} {
+		c := g.next(0)
+		c.name = fmt.Sprintf("rj%d_%d", len(g.hashes), vi)
+		c.hasCfg, c.cfg = true, out
+		c.bks = append([]int{}, listed...)
+		c.sigs = nil
+		for _, k := range listed {
+			switch variant {
+			case "wrong-message":
+				c.sigs = append(c.sigs, fmt.Sprintf("w%d", k))
+			case "garbage":
+				c.sigs = append(c.sigs, "g")
+			case "unlisted-outsider-sig":
+				c.sigs = append(c.sigs, fmt.Sprintf("s%d", out[0]))
+			}
+		}
+		g.def(c)
+		op := "hdr"
+		if vi%2 == 1 && r.Rng.Bool() {
+			op = "add"
+		}
+		res := r.Do(op + " " + c.name)
+		r.Hist("rejected-announcement." + variant + "." + op + "." + verdictOf(res))
+		r.Nontrivial(fmt.Sprintf("rejected-announcement/n%d/%s/%s/%s", n, variant, op, verdictOf(res)))
+		if okRes(res) {
+			return // (the oracle has reported it; the generator's chain no longer matches)
+		}
+		// a header signed only by the announced outsiders
+		o := g.next(0)
+		o.name = c.name + "o"
+		g.signBy(o, out)
+		g.def(o)
+		res = r.Do("hdr " + o.name)
+		r.Nontrivial(fmt.Sprintf("rejected-announcement/n%d/%s/outsider-header/%s", n, variant, verdictOf(res)))
+		if okRes(res) {
+			return
+		}
+	}
+	// the set in force still signs
+	v := g.next(0)
+	v.name = fmt.Sprintf("rjv%d", len(g.hashes))
+	g.def(v)
+	if okRes(r.Do("hdr " + v.name)) {
+		if okRes(r.Do("add " + v.name)) {
+			g.committed(v)
+		}
+	}
+}
+
+// headerSyncAhead: header sync runs ahead of block sync across a configuration change; the blocks arrive late, one
+// by one, and between them further headers signed by the retired set and by the set in force are delivered.
+func (f *quorumFam) headerSyncAhead(r *hx.Run, g *chainGen, n int) {
+	nw := g.outsiders(3)
+	if len(nw) == 0 {
+		return
+	}
+	old := append([]int{}, g.set...)
+	var late []*blockSpec
+	for i := 0; i < 3; i++ {
+		b := g.next(1)
+		b.name = fmt.Sprintf("hs%d_%d", len(g.hashes), i)
+		if i == 1 {
+			b.hasCfg, b.cfg = true, nw
+		}
+		g.def(b)
+		if !okRes(r.Do("hdr " + b.name)) {
+			return
+		}
+		g.committed(b)
+		late = append(late, b)
+	}
+	tryHeaders := func(tag string) bool {
+		o := g.next(0)
+		o.name = fmt.Sprintf("hso%d_%s", len(g.hashes), tag)
+		g.signBy(o, old)
+		g.def(o)
+		res := r.Do("hdr " + o.name)
+		r.Nontrivial(fmt.Sprintf("header-sync-ahead/n%d/%s/retired-set/%s", n, tag, verdictOf(res)))
+		if okRes(res) {
+			return false
+		}
+		v := g.next(1)
+		v.name = fmt.Sprintf("hsv%d_%s", len(g.hashes), tag)
+		g.def(v)
+		res = r.Do("hdr " + v.name)
+		r.Nontrivial(fmt.Sprintf("header-sync-ahead/n%d/%s/set-in-force/%s", n, tag, verdictOf(res)))
+		if !okRes(res) {
+			return false
+		}
+		g.committed(v)
+		late = append(late, v)
+		return true
+	}
+	for i := 0; i < len(late); i++ {
+		op := "add"
+		if r.Rng.Bool() {
+			op = "sub"
+		}
+		res := r.Do(op + " " + late[i].name)
+		r.Hist("header-sync-ahead.late-block." + verdictOf(res))
+		if !okRes(res) {
+			return
+		}
+		if i < 2 {
+			if !tryHeaders(fmt.Sprintf("after-late-block-%d", i)) {
+				return
+			}
+		}
+	}
+	r.Do("obs")
 }
